@@ -427,7 +427,9 @@ def search_for_paths(logger: ConsolePrinter, processor: EYAMLProcessor,
                     YAMLPath.escape_path_section(ele.anchor.value, pathsep)
                 )
 
-            if anchor_matched is AnchorMatches.ALIAS_EXCLUDED:
+            if (anchor_matched is AnchorMatches.ALIAS_EXCLUDED
+                    or (anchor_matched is AnchorMatches.UNSEARCHABLE_ALIAS
+                        and not include_value_aliases)):
                 continue
 
             if anchor_matched in [AnchorMatches.MATCH,
@@ -567,7 +569,9 @@ def search_for_paths(logger: ConsolePrinter, processor: EYAMLProcessor,
                     continue
 
             # The value may itself be anchored; search it if requested
-            if val_anchor_matched is AnchorMatches.ALIAS_EXCLUDED:
+            if (val_anchor_matched is AnchorMatches.ALIAS_EXCLUDED
+                    or (val_anchor_matched is AnchorMatches.UNSEARCHABLE_ALIAS
+                        and not include_value_aliases)):
                 continue
 
             if val_anchor_matched in [AnchorMatches.MATCH,
